@@ -27,7 +27,9 @@ def main() -> int:
     work = C.VERIF / ".work" / f"{pid}_{os.getpid()}"
     work.mkdir(parents=True, exist_ok=True)
     ev_path = C.VERIF / "evidence" / f"{pid}.json"
-    ev_path.parent.mkdir(exist_ok=True)
+    if str(C.REPO) != "/repo":   # a run against a scratch worktree (seeded-change testing) must not overwrite the committed evidence
+        ev_path = C.VERIF / ".work" / "scratch_evidence" / f"{pid}.json"
+    ev_path.parent.mkdir(parents=True, exist_ok=True)
     broken: list[str] = []      # proof obligations / correspondences that no longer check
     infra_error = None
     ctx = C.Ctx(pid=pid, tier=tier, seed=seed, workdir=work, driver=C.Driver(work), rng=random.Random(f"{pid}:{seed}"))
